@@ -38,6 +38,11 @@ func checkC16(r *Run) {
 		{"/a/{x}/b/{y}/c/*{w}", "/a/{x}/b/{y}/c/d", "/a/{x}/b/c", "/a/*{w}/z"},
 		{"{h}.{g}.b/a/{x}/*{w}/end", "a.{g}.b/a/{x}/b", "/a/{x}/b"},
 		{"/*{w}/a/{x}/*{y}/b", "/a/a/a/a/a/a", "/a/a/a/{x}"},
+		// ladders: a static child next to a parameter and a catch-all on every level, so that the walk remembers two
+		// alternatives per level (more than the recorded depth of the tree) before it reaches the end
+		{"/a/b/c/d", "/a/b/c/{p}", "/a/b/c/*{w}", "/a/b/{p}", "/a/b/*{w}", "/a/{p}", "/a/*{w}", "/{p}", "/*{w}"},
+		{"/a/b/c/d/e/f", "/a/b/c/d/e/{p}", "/a/b/c/d/{p}", "/a/b/c/d/*{w}", "/a/b/c/{p}", "/a/b/{p}", "/a/b/*{w}", "/a/{p}", "/{p}"},
+		{"a.b.c/a/b", "a.b.{h}/a/b", "a.{g}.c/a/b", "{h}.b.c/a/b", "a.b.c/a/{p}", "a.b.c/{p}/b", "a.b.c/*{w}"},
 	}
 	seen := map[string]int{}
 	for i, p := range g.Pool {
@@ -53,7 +58,9 @@ func checkC16(r *Run) {
 		sort.Ints(ids)
 		g.Extra = append(g.Extra, ids)
 	}
-	g.Paths = append(g.Paths, "/a/1/2/3/4/5/6/7/8", "/a/x/b/y/c/d", "/a/x/b/y/c/d/e/f", "/a/q/r/s/z", "/a/a/a/a/a/a", "/a/a/a/b", "/q/a/x/r/s/b", "/a/x/b", "/a/x/r/s/end")
+	g.Paths = append(g.Paths, "/a/1/2/3/4/5/6/7/8", "/a/x/b/y/c/d", "/a/x/b/y/c/d/e/f", "/a/q/r/s/z", "/a/a/a/a/a/a", "/a/a/a/b", "/q/a/x/r/s/b", "/a/x/b", "/a/x/r/s/end",
+		"/a/b/c/d", "/a/b/c/x", "/a/b/c/x/y", "/a/b/x", "/a/b/x/y", "/a/x", "/a/x/y", "/x", "/x/y", "/a/b/c/d/e/f", "/a/b/c/d/e/x", "/a/b/c/d/x", "/a/b/c/d/x/y", "/a/b", "/a/x/b", "/x/b")
+	g.Hosts = append(g.Hosts, "a.b.c", "a.b.x", "a.x.c", "x.b.c")
 	var vecs []matchVec
 	res := r.runTLC(tlcOpts{Module: "MC_Match", Gen: map[string]string{"Gen_Match.tla": g.tla(false)}, Timeout: pick(r, 5*time.Minute, 30*time.Minute),
 		OnVec: func(b []byte) {
